@@ -246,14 +246,52 @@ pub fn run(ctx: &Ctx) -> i32 {
         out
     };
     let cfg = bfs::Config { max_depth: depth, dedup: true, state_cap: 4_000_000, wall_cap_s: ctx.tier.pick(45, 1200) };
-    let (acc, stats) = bfs::explore(roots, &cfg, Some(Env::new(true)), step);
+    let (mut acc, stats) = bfs::explore(roots, &cfg, Some(Env::new(true)), step);
+    // Commands on piped standard input, through the real binary: lines of every length around
+    // 2^10 and 2^12 and far beyond, alone, twice, and followed by a short one; with and without a
+    // final newline. The session must end (end of input = quit) and run every command once.
+    {
+        let lace = crate::cli::Lace::new(&ctx.lace_bin, &ctx.scratch);
+        lace.write("stdin16.asm", b"add r0 r0 #1\nhalt\n");
+        let mut inputs: Vec<(String, Vec<u8>, usize)> = Vec::new();
+        for len in [10usize, 1000, 1017, 1018, 1019, 1020, 1023, 1024, 1025, 1100, 2048, 4090, 4096, 4097, 8192, 70000] {
+            let line = format!("echo {}", "A".repeat(len));
+            inputs.push((format!("one-line-of-{len}"), format!("{line}\n").into_bytes(), 1));
+            inputs.push((format!("one-line-of-{len}-without-newline"), line.clone().into_bytes(), 1));
+            inputs.push((format!("two-lines-of-{len}"), format!("{line}\n{line}\n").into_bytes(), 2));
+            inputs.push((format!("line-of-{len}-then-short"), format!("{line}\necho B\n").into_bytes(), 2));
+            inputs.push((format!("short-then-line-of-{len}"), format!("echo B\n{line}\n").into_bytes(), 2));
+        }
+        let parts = crate::isolate::pooled(None, inputs.len(), 1, Acc::new, |acc, i| {
+            let (name, input, echoes) = &inputs[i];
+            acc.eval("stdin-lines");
+            let run = lace.run_timeout(&["debug", "stdin16.asm", "--minimal"], input, &[("LACE_VERIF_FUEL", "200000")], None, 20);
+            let case = json!({"stdin_lines": true, "name": name, "stdin_bytes": input.len()});
+            let shown = run.err().lines().chain(run.out().lines()).filter(|l| l.contains("AAAAAAAAAA") || l.trim() == "[B]" || l.trim() == "B").count();
+            if run.timed_out || run.status == 0xF0 {
+                acc.outcome("violation:stdin-lines/does-not-end".to_string());
+                acc.violation("C16/stdin-lines/session-does-not-end", format!("{name}: the session on piped commands did not end ({}); {} echo lines printed for {} commands", if run.timed_out { "killed after 20 s".to_string() } else { "command budget of the instrumented build exhausted".to_string() }, shown, echoes), case);
+            } else if run.status == 101 || run.status >= 1000 {
+                acc.violation("C16/stdin-lines/crash", format!("{name}: exit status {}", run.status), case);
+            } else if shown != *echoes {
+                acc.violation("C16/stdin-lines/commands-not-run-once", format!("{name}: {} echo lines printed for {} commands (exit status {})", shown, echoes, run.status), case);
+            } else {
+                acc.nontrivial();
+                acc.gate("piped-sessions-ended");
+                acc.outcome(format!("stdin-lines/status{}", run.status));
+            }
+        });
+        for p in parts {
+            acc.merge(p);
+        }
+    }
     finish(
         ctx,
         acc,
         Level { category: "model_checking", bfs: Some((stats.states, stats.transitions, 2 * stats.transitions, stats.max_depth)) },
         "explicit-state BFS over command histories (every resuming command incl. counts 1, 2 and 60000, registers, goto first, reset, break add at a label and at the PC, move r1 xFFFF — which redirects the computed jumps to xFFFF —, an unknown command, an empty command) on 11 programs: one that stores a HALT word over an instruction it is about to reach, a straight-line program with every opcode and output trap, and programs that reach PC=xFFFF by a computed jump, PCs below the origin (incl. x0000), xFE00, xFFFE, their own HALT, a program parked on HALT from the start, an ordinary loop and one running off the top of user space. Every transition runs the history twice on the real debugger: followed by end of input (the property's shape) and followed by `exit`; the hooks count loop iterations, executed instructions and consumed commands inside the run, and the check requires termination within the step budget, iterations <= 4*(instructions+commands)+16 and never more than 4 consecutive idle iterations. non-trivial = transitions satisfying the bound",
         !stats.capped,
-        &["pc=xFFFF", "pc-below-origin", "pc>=xFE00", "pc-in-user-space", "parked-on-halt"],
+        &["pc=xFFFF", "pc-below-origin", "pc>=xFE00", "pc-in-user-space", "parked-on-halt", "piped-sessions-ended"],
         &["fuel exhaustion is deterministic (counted loop iterations), so a livelock is a replayable verdict, not a timeout", "constants 4 and 16 are generous on purpose: the statement allows any constant"],
         json!({"depth": depth, "states": stats.states, "per_level": stats.per_level, "capped": stats.capped, "step_budget": SESSION_FUEL}),
     )
